@@ -33,6 +33,7 @@ import BRV.Proofs.RepoBasics
 import BRV.Proofs.RepoCrash
 import BRV.Proofs.LoadSound
 import BRV.Proofs.RepoExample
+import BRV.Proofs.LinearWorld
 
 namespace BRV.Repo
 
@@ -181,5 +182,35 @@ example : tipId exFork2 = 16 ∧ exFork2.longest = 1 ∧ (save exFork2).2.isNone
     (List.range 7).map (fun n =>
       tipId (load { exFork2 with store := ((save exFork2).1.events.take n).foldl Store.apply exFork2.store } 10
         { id := 0, prev := 99, bits := 0x1d00ffff, time := 1 }).1) = [4, 4, 4, 16, 16, 16, 16] := by decide
+
+
+/-- **C12 in the linear world, every Save.** At any point of any history of tip-extending submissions,
+    Cleans, Saves and Loads (any length, any number of earlier generations): for EVERY prefix of the write
+    sequence of a Save, Load of the storage as it then is succeeds without error or panic and reports
+    the genesis-only chain (only when no Save ever completed: there is no index), or exactly the chain
+    as the last completed Save/Clean stored it (`c.take m`), or exactly the chain being saved (`c`) — tip
+    height, hash and work, and the header at every height. Both chains are prefixes of the accepted chain,
+    the second extends the first. -/
+theorem C12_linear_crash_any_save (r0 : Repo) (c0 : List HData) (k0 m0 : Nat) (h0 : PLin r0 c0 k0 m0) (ops : List LinOp)
+    (hh : LinHist r0 ops) (depth : Int) (hd : 0 ≤ depth) (g : Hdr) (w : Nat) (hg : Work.blockWork g.bits = some w) :
+    ∃ (c : List HData) (m : Nat) (rs : Repo) (E : List StoreEv), m ≤ c.length ∧
+      save (runOps r0 ops) = (rs, none) ∧ rs.events = (runOps r0 ops).events ++ E ∧
+      ∀ n, ∃ rl, load { runOps r0 ops with store := (E.take n).foldl Store.apply (runOps r0 ops).store } depth g = (rl, none) ∧
+        CrashOutcome rl g w (c.take m) c (runOps r0 ops).store.index.isSome := by
+  obtain ⟨c, k, m, hp⟩ := plin_history ops r0 c0 k0 m0 h0 hh
+  obtain ⟨rs, E, hs, hev, hall⟩ := save_crash_lin hp depth hd g w hg
+  exact ⟨c, m, rs, E, hp.mle, hs, hev, hall⟩
+
+/-- **C12 in the linear world, every Clean** (the automatic one every 10000 heights is this Clean). -/
+theorem C12_linear_crash_any_clean (r0 : Repo) (c0 : List HData) (k0 m0 : Nat) (h0 : PLin r0 c0 k0 m0) (ops : List LinOp)
+    (hh : LinHist r0 ops) (cdepth : Int) (hcd : 0 ≤ cdepth) (depth : Int) (hd : 0 ≤ depth) (g : Hdr) (w : Nat)
+    (hg : Work.blockWork g.bits = some w) :
+    ∃ (c : List HData) (m : Nat) (r' : Repo) (E : List StoreEv), m ≤ c.length ∧
+      cleanWith (runOps r0 ops) cdepth = (r', none) ∧ r'.events = (runOps r0 ops).events ++ E ∧
+      ∀ n, ∃ rl, load { runOps r0 ops with store := (E.take n).foldl Store.apply (runOps r0 ops).store } depth g = (rl, none) ∧
+        CrashOutcome rl g w (c.take m) c (runOps r0 ops).store.index.isSome := by
+  obtain ⟨c, k, m, hp⟩ := plin_history ops r0 c0 k0 m0 h0 hh
+  obtain ⟨r', E, hcl, hev, hall⟩ := clean_crash_lin hp cdepth hcd depth hd g w hg
+  exact ⟨c, m, r', E, hp.mle, hcl, hev, hall⟩
 
 end BRV.Repo
